@@ -66,8 +66,12 @@ def gen_session(r, tier):
             times = [0.0] * T
     if T > 1 and r.random() < 0.08:
         spec["motion"] = {"amp": 0.0, "drift": [0.0, 0.0], "stretch": 0.0}
-    return {"spec": spec, "frames": T, "times": times, "path": r.choice(["direct", "direct", "se"]),
+    sess = {"spec": spec, "frames": T, "times": times, "path": r.choice(["direct", "direct", "se"]),
             "cm": r.random() < 0.15, "gt": True}
+    if r.random() < 0.25:
+        sess["ne"] = r.choice([3, 4, 6, 8])     # README pipeline: resample before building the frames
+        sess["rse"] = r.random() < 0.5
+    return sess
 
 
 def _gen_call(r, op, T, calm):
@@ -248,6 +252,8 @@ def build_forsys(fs, sess, tag):
             v, e, c = P.build_se(fs, T, f"mem:{tag}:{t}", {"wrap": 10})
         else:
             v, e, c = P.build_direct(fs, T)
+        if sess.get("ne"):
+            v, e, c, _ = fs.virtual_edges.generate_mesh(v, e, c, ne=sess["ne"], replace_short_edges=bool(sess.get("rse")))
         frames[t] = fs.frames.Frame(t, v, e, c, time=sess["times"][t], gt=bool(sess.get("gt", True)))
     return fs.ForSys(frames, cm=bool(sess.get("cm", False)))
 
